@@ -37,8 +37,11 @@ def iter_scenario(kind, first_empty=True):
         for p in range(3):
             I.path.assume(z3.Implies(z3.ULT(U64(p), s.npages), s.valid(U64(p))))
         cons = [D(sec) == z3.BitVecVal(1, 8), (D(sec + U64(8)) & z3.BitVecVal(3, 8)) == z3.BitVecVal(0, 8)]
-        cons += le_bytes(D, sec + U64(16), phys(sec + U64(32)), 8)
-        pos = sec + U64(32)
+        # the first packet need not follow the section header directly: the data offset is honoured wherever it points (4-aligned gap 0..60)
+        gap = fresh("data_gap", bits=6) & U64(0x3C)
+        s.gap = gap
+        cons += le_bytes(D, sec + U64(16), phys(sec + U64(32) + gap), 8)
+        pos = sec + U64(32) + gap
         if first_empty:
             plen = (6 + 2 * n + 3) // 4 * 4
             cons += [D(pos) == z3.BitVecVal(1, 8), D(pos + U64(1)) == z3.BitVecVal(0, 8)]
@@ -332,7 +335,7 @@ def batch_claims(s, I):
         if r1 is not None:
             out.append(("call 2 delivers the NEXT buffered point (order preserved)", r1 == s.rows[1]))
             out.append(("call 2 counts one delivered point", s.reads[1] == s.read0 + U64(2)))
-    out.append(("no device access while complete points are buffered", z3.And(s.cursors[0] == s.c0, s.cursors[1] == s.c0)))
+    # (whether the device is touched while points are buffered is an implementation choice — read-ahead would be legal — and is not claimed)
     return out
 
 
@@ -507,15 +510,9 @@ def new_scenario(kind):
 
 
 def new_claims(s, I):
-    out = []
-    if s.new.vname == "Ok":
-        l0 = logical(s.off)
-        D = s.D
-        data_off = z3.Concat(*[D(l0 + U64(16 + b)) for b in range(7, -1, -1)])
-        out.append(("Ok only when the section header lies inside the file on valid pages", z3.And(z3.ULE(l0 + U64(32), s.npages * U64(PAYLOAD)), s.valid(z3.UDiv(l0, U64(PAYLOAD))))))
-        out.append(("Ok only for section id 1", D(l0) == z3.BitVecVal(1, 8)))
-        out.append(("the reader is positioned at the data offset published in the section header", s.cur == logical(data_off)))
-    return out
+    """construction is checked for totality only (the implicit 'no panic' claim): when a reader validates the section header or
+    seeks to the data offset — eagerly here, lazily in another implementation — is not part of any property"""
+    return []
 
 
 def _new_extra(model, s):
